@@ -360,7 +360,31 @@ def r_c04_month_abbreviation_with_dot(s4, repo, scratch):
             'observed': 'all as written' if not bad else 'file %s: exit %d, printed %s; %s' % bad, 'failed': bool(bad)}
 
 
+def r_c19_summary_bytes_match_stdout(s4, repo, scratch):
+    """--summary: total and per-file 'Printed bytes' equal the bytes written to stdout, for every prepend combination"""
+    import re as _re
+    bad = None
+    wtmp = os.path.join(repo, 'logs/programs/utmp/host-entry6.wtmp')
+    txt = os.path.join(scratch, 'c19_text.log')
+    open(txt, 'w').write('2024-01-01 00:00:01 +00:00 first\n    continuation\n2024-01-01 00:00:02 +00:00 second\n2024-01-01 00:00:03 +00:00 third, no newline at the end')
+    for inp in (wtmp, txt):
+        for opts in ([], ['-n'], ['-u'], ['-n', '-u'], ['-n', '-u', '--separator', 'XYZ']):
+            rc, out, err = run_s4(s4, ['--color', 'never', '--summary'] + opts + [inp])
+            e = err.decode('utf-8', 'replace')
+            tot = _re.findall(r'(?m)^Printed bytes\s*:\s*(\d+)', e)
+            per = _re.findall(r'(?m)^  Printed:\s*\n\s*bytes\s*:\s*(\d+)', e)
+            seps = opts.count('--separator') and len(out.split(b'XYZ')) - 1
+            ok = tot and int(tot[-1]) == len(out) and per and int(per[-1]) + 3 * seps + (1 if (inp == txt) else 0) == len(out)
+            if not ok:
+                bad = bad or (inp, ' '.join(opts), len(out), tot[-1:] or ['?'], per[-1:] or ['?'])
+    return {'name': 'C19.summary_bytes_match_stdout', 'input': bad[0] if bad else wtmp, 'how_made': 'host-entry6.wtmp from the repository and a generated 3-message text log without final newline',
+            'cmd': '%s --color never --summary [-n] [-u] [--separator XYZ] <file>' % s4,
+            'expected': 'total Printed bytes = bytes on stdout; per-file bytes + separators + supplied newline = the same',
+            'observed': 'all equal' if not bad else 'file %s options [%s]: stdout %d bytes, summary total %s, per-file %s' % bad, 'failed': bool(bad)}
+
+
 RECIPES = {
+    'C19': [r_c19_summary_bytes_match_stdout],
     'C02': [r_c02_continuation_at_block_boundary, r_c02_mixed_notation_first_message],
     'C04': [r_c04_instants, r_c04_fractions, r_c04_month_abbreviation_with_dot],
     'C10': [r_c03_evtx_window],
